@@ -57,9 +57,9 @@ def main():
         tail = out.strip().splitlines()[-1] if out.strip() else ""
         ran.append(("pytest dali/tests with patch", tail))
         tests_ok = "110 passed" in tail
-        os.makedirs(os.path.join(wt, "SEED"), exist_ok=True)
-        shutil.copy(os.path.join(src, "demo.py"), os.path.join(wt, "SEED", "demo.py"))
-        demo = "PYTHONPATH=%s /venv/bin/python SEED/demo.py" % wt      # dali must resolve to the scratch worktree
+        os.makedirs(os.path.join(wt, "SEED", "x"), exist_ok=True)
+        shutil.copy(os.path.join(src, "demo.py"), os.path.join(wt, "SEED", "x", "demo.py"))
+        demo = "PYTHONPATH=%s /venv/bin/python SEED/x/demo.py" % wt      # dali must resolve to the scratch worktree
         rc1, out1 = sh(demo, cwd=wt, timeout=300)
         ran.append(("demo with patch", rc1))
         sh("git apply -R %s/patch.diff" % src, cwd=wt)
